@@ -115,25 +115,32 @@ def run(ctx):
                             bad.append("placeInLattice differs from generated place_xyz/place_U")
             after = observe(S)
             probs = []
+            dev = []
             if r is not S or S.lattice is not Lk or any(a.lattice is not Lk for a in S):
                 probs.append("lattice identity: the new lattice is not the lattice of the structure and of all atoms")
+            # round-off grows with the square of the condition number of the cells involved (1.5e-8 seen at cond 528)
+            cmax = max(float(numpy.linalg.cond(x.base)) for x in (L0, cur, Lk))
+            f = max(1.0, (cmax / 50.0) ** 2)
             for (c0, u0, q0, an0, oc0, id0, el0), (c1, u1, q1, an1, oc1, id1, el1) in zip(before, after):
-                if not numpy.allclose(c0, c1, atol=1e-7):
+                if not numpy.allclose(c0, c1, atol=1e-7 * f):
                     probs.append("Cartesian position moved")
-                if not numpy.allclose(u0, u1, atol=1e-8):
+                if not numpy.allclose(u0, u1, atol=1e-8 * f):
                     probs.append("Cartesian displacement tensor changed")
-                if not numpy.isclose(q0, q1, atol=1e-9):
+                    dev.append(float(numpy.abs(numpy.array(u0) - numpy.array(u1)).max()))
+                if not numpy.isclose(q0, q1, atol=1e-9 * f):
                     probs.append("Uisoequiv changed")
                 if (an0, oc0, id0, el0) != (an1, oc1, id1, el1):
                     probs.append("flag/occupancy/identity changed")
             for p in sorted(set(probs)):
-                ctx.violation("placeInLattice: %s" % p, {"start": repr(L0), "chain_len": len(chain), "clause": p}, key="place:%s" % p.split(" ")[0])
+                ctx.violation("placeInLattice: %s" % p, {"start": repr(L0), "chain": [repr(x) for x in chain], "at": repr(Lk), "clause": p, "max_deviation": max(dev) if dev else None,
+                               "cond": [float(numpy.linalg.cond(x.base)) for x in [L0] + chain]}, key="place:%s" % p.split(" ")[0])
             cur = Lk
         for arr, keep in getattr(S, "_caller_arrays", []):
             if not numpy.array_equal(arr, keep):
                 ctx.violation("placeInLattice changed an array owned by the caller (the one the atoms were built from)",
                               {"start": repr(L0), "chain_len": len(chain)}, key="place:caller-array")
-        if not all(numpy.allclose(a.xyz, f, atol=1e-7) for a, f in zip(S, frac0)) or not all(numpy.allclose(a.U, u, atol=1e-8) for a, u in zip(S, U0)):
+        fch = max(1.0, (max(float(numpy.linalg.cond(x.base)) for x in [L0] + chain) / 50.0) ** 2)
+        if not all(numpy.allclose(a.xyz, f, atol=1e-7 * fch) for a, f in zip(S, frac0)) or not all(numpy.allclose(a.U, u, atol=1e-8 * fch) for a, u in zip(S, U0)):
             ctx.violation("a chain of lattices ending at the start does not restore fractional coordinates / tensors",
                           {"start": repr(L0), "chain": [repr(x) for x in chain]}, kind="history", key="chain-returns")
         if i < 3:
